@@ -772,7 +772,7 @@ for _r in ('R1-1', 'R1-2', 'R1-3', 'R1-4', 'R2-1', 'R2-2', 'R2-3', 'R2-4', 'R3-1
            'R34-1', 'R34-2', 'R34-3', 'R35-1', 'R35-2', 'R35-3', 'R36-1', 'R36-2', 'R36-3',
            'R38-1', 'R38-2', 'R38-3', 'R38-4', 'R39-1', 'R39-2', 'R39-3', 'R39-4', 'R40-1', 'R40-2', 'R40-3', 'R40-4',
            'R41-1', 'R41-2', 'R41-3', 'R41-4',
-           'R43-1', 'R43-2', 'R43-3', 'R43-4', 'R44-1', 'R44-2', 'R44-3', 'R44-4', 'R45-1', 'R45-2', 'R45-3', 'R45-4'):
+           'R42-1', 'R42-2', 'R42-3', 'R42-4', 'R43-1', 'R43-2', 'R43-3', 'R43-4', 'R44-1', 'R44-2', 'R44-3', 'R44-4', 'R45-1', 'R45-2', 'R45-3', 'R45-4'):
     CORPUS.append({'id': 'S/' + _r + '-silent', 'props': ALL_PROPS, 'rule': None, 'expect': 'silent', 'edits': [],
                    'patch': 'seeded_benign/%s/patch.diff' % _r, 'tolerate_rekeyed': True})
 
